@@ -97,6 +97,141 @@ func (p *pkgInfo) constVal(e ast.Expr) (string, bool) {
 }
 
 // ---------------------------------------------------------------------------------
+// canonical form of a function: its own variables (receiver, parameters, results, := / var / range
+// declarations) renamed v0, v1, ... in order of declaration, so that facts read off the text of a
+// function survive a renaming of its locals.
+
+func declaredNames(fd *ast.FuncDecl) []string {
+	var names []string
+	seen := map[string]bool{}
+	add := func(id *ast.Ident) {
+		if id != nil && id.Name != "_" && !seen[id.Name] {
+			seen[id.Name] = true
+			names = append(names, id.Name)
+		}
+	}
+	fl := func(l *ast.FieldList) {
+		if l == nil {
+			return
+		}
+		for _, f := range l.List {
+			for _, n := range f.Names {
+				add(n)
+			}
+		}
+	}
+	fl(fd.Recv)
+	fl(fd.Type.Params)
+	fl(fd.Type.Results)
+	ast.Inspect(fd.Body, func(n ast.Node) bool {
+		switch x := n.(type) {
+		case *ast.AssignStmt:
+			if x.Tok == token.DEFINE {
+				for _, l := range x.Lhs {
+					if id, ok := l.(*ast.Ident); ok {
+						add(id)
+					}
+				}
+			}
+		case *ast.RangeStmt:
+			if x.Tok == token.DEFINE {
+				if id, ok := x.Key.(*ast.Ident); ok {
+					add(id)
+				}
+				if id, ok := x.Value.(*ast.Ident); ok {
+					add(id)
+				}
+			}
+		case *ast.ValueSpec:
+			for _, n := range x.Names {
+				add(n)
+			}
+		case *ast.FuncLit:
+			fl(x.Type.Params)
+			fl(x.Type.Results)
+		}
+		return true
+	})
+	return names
+}
+
+// canonNode prints n (a part of fd) with fd's own variables renamed canonically.
+func canonNode(fd *ast.FuncDecl, n ast.Node) string {
+	ren := map[string]string{}
+	for i, nm := range declaredNames(fd) {
+		ren[nm] = fmt.Sprintf("v%d", i)
+	}
+	type saved struct {
+		id   *ast.Ident
+		name string
+	}
+	var undo []saved
+	skip := map[*ast.Ident]bool{}
+	ast.Inspect(fd, func(m ast.Node) bool {
+		switch x := m.(type) {
+		case *ast.SelectorExpr:
+			skip[x.Sel] = true
+		case *ast.KeyValueExpr:
+			if id, ok := x.Key.(*ast.Ident); ok {
+				skip[id] = true
+			}
+		}
+		return true
+	})
+	ast.Inspect(fd, func(m ast.Node) bool {
+		if id, ok := m.(*ast.Ident); ok && !skip[id] {
+			if c, ok := ren[id.Name]; ok {
+				undo = append(undo, saved{id, id.Name})
+				id.Name = c
+			}
+		}
+		return true
+	})
+	out := norm(src(n))
+	for _, u := range undo {
+		u.id.Name = u.name
+	}
+	return out
+}
+
+// canonText: the canonical form of a function given as source text (the expectations below are
+// written with readable names and put through the same renaming).
+func canonText(fn string) string {
+	f, err := parser.ParseFile(token.NewFileSet(), "x.go", "package x\n"+fn, 0)
+	if err != nil {
+		panic("canonText: " + err.Error() + "\n" + fn)
+	}
+	fd := f.Decls[0].(*ast.FuncDecl)
+	var sb strings.Builder
+	ren := map[string]string{}
+	for i, nm := range declaredNames(fd) {
+		ren[nm] = fmt.Sprintf("v%d", i)
+	}
+	skip := map[*ast.Ident]bool{}
+	ast.Inspect(fd, func(m ast.Node) bool {
+		switch x := m.(type) {
+		case *ast.SelectorExpr:
+			skip[x.Sel] = true
+		case *ast.KeyValueExpr:
+			if id, ok := x.Key.(*ast.Ident); ok {
+				skip[id] = true
+			}
+		}
+		return true
+	})
+	ast.Inspect(fd, func(m ast.Node) bool {
+		if id, ok := m.(*ast.Ident); ok && !skip[id] {
+			if c, ok := ren[id.Name]; ok {
+				id.Name = c
+			}
+		}
+		return true
+	})
+	printer.Fprint(&sb, token.NewFileSet(), fd.Body)
+	return norm(sb.String())
+}
+
+// ---------------------------------------------------------------------------------
 // buffer primitives
 
 type prim struct {
@@ -113,16 +248,17 @@ func (p *pkgInfo) resolvePrim(name string, write bool, depth int) prim {
 	if fd == nil || fd.Body == nil {
 		return prim{}
 	}
-	body := norm(src(fd.Body))
+	// (compared in canonical form: the names of receiver, parameters and locals are free)
+	body := canonNode(fd, fd.Body)
 	if name == "WriteString" {
-		want := "{ b.Write16(uint16(len(s))) for i := 0; i < len(s); i++ { b.Write8(byte(s[i])) } }"
+		want := canonText("func (b *buffer) WriteString(s string) { b.Write16(uint16(len(s))); for i := 0; i < len(s); i++ { b.Write8(byte(s[i])) } }")
 		if body == want && p.resolvePrim("Write16", true, 0).width == 2 && p.resolvePrim("Write8", true, 0).width == 1 {
 			return prim{width: -1, ok: true}
 		}
 		return prim{}
 	}
 	if name == "ReadString" {
-		want := `{ l := b.Read16() if !b.has(int(l)) { b.markOverrun() return "" } bs := make([]byte, l) for i := 0; i < int(l); i++ { bs[i] = byte(b.Read8()) } return string(bs) }`
+		want := canonText(`func (b *buffer) ReadString() string { l := b.Read16(); if !b.has(int(l)) { b.markOverrun(); return "" }; bs := make([]byte, l); for i := 0; i < int(l); i++ { bs[i] = byte(b.Read8()) }; return string(bs) }`)
 		if body == want && p.resolvePrim("Read16", false, 0).width == 2 && p.resolvePrim("Read8", false, 0).width == 1 {
 			return prim{width: -1, ok: true}
 		}
@@ -131,19 +267,19 @@ func (p *pkgInfo) resolvePrim(name string, write bool, depth int) prim {
 	// base cases
 	if write {
 		for _, w := range []int{1, 2, 4, 8} {
-			if w == 1 && body == "{ b.append(1)[0] = byte(v) }" {
+			if w == 1 && body == canonText("func (b *buffer) Write8(v uint8) { b.append(1)[0] = byte(v) }") {
 				return prim{width: 1, ok: true}
 			}
-			if body == fmt.Sprintf("{ order.PutUint%d(b.append(%d), v) }", 8*w, w) && p.littleEndian() {
+			if body == canonText(fmt.Sprintf("func (b *buffer) W(v uint%d) { order.PutUint%d(b.append(%d), v) }", 8*w, 8*w, w)) && p.littleEndian() {
 				return prim{width: w, ok: true}
 			}
 		}
 	} else {
-		if body == "{ v, ok := b.consume(1) if !ok { return 0 } return uint8(v[0]) }" {
+		if body == canonText("func (b *buffer) Read8() uint8 { v, ok := b.consume(1); if !ok { return 0 }; return uint8(v[0]) }") {
 			return prim{width: 1, ok: true}
 		}
 		for _, w := range []int{2, 4, 8} {
-			if body == fmt.Sprintf("{ v, ok := b.consume(%d) if !ok { return 0 } return order.Uint%d(v) }", w, 8*w) && p.littleEndian() {
+			if body == canonText(fmt.Sprintf("func (b *buffer) R() uint%d { v, ok := b.consume(%d); if !ok { return 0 }; return order.Uint%d(v) }", 8*w, w, 8*w)) && p.littleEndian() {
 				return prim{width: w, ok: true}
 			}
 		}
@@ -618,10 +754,11 @@ func (p *pkgInfo) encStmt(typ, recv string, stmts []ast.Stmt, i int, prefix []st
 			}
 			if strings.HasPrefix(ft, "[]") && pr.width == 2 && pr.mask == 0 && i+1 < len(stmts) {
 				// counted list: next statement must range over the same field
-				if rs, ok := stmts[i+1].(*ast.RangeStmt); ok {
-					if rp, ok := pathOf(rs.X, recv); ok && join(nil, rp) == join(nil, pa) && len(rs.Body.List) == 1 && rs.Value != nil && src(rs.Key) == "_" {
-						v := src(rs.Value)
-						body := norm(src(rs.Body.List[0]))
+				// the element loop, in any of its three spellings: `for _, v := range xs`, `for i := range xs`
+				// (element xs[i]) and `for i := 0; i < len(xs); i++`
+				if v, lb, rx, ok := elemLoop(stmts[i+1]); ok {
+					if rp, ok := pathOf(rx, recv); ok && join(nil, rp) == join(nil, pa) && len(lb.List) == 1 {
+						body := norm(src(lb.List[0]))
 						et := strings.TrimPrefix(ft, "[]")
 						if (et == "string" && body == "b.WriteString("+v+")" && p.resolvePrim("WriteString", true, 0).ok) || (et != "string" && body == v+".encode(b)") {
 							if ks, ok := p.elemKinds(et, "encode"); ok {
@@ -764,9 +901,10 @@ func (p *pkgInfo) decStmt(typ, recv string, stmts []ast.Stmt, i int, prefix []st
 }
 
 func (p *pkgInfo) rreaddir(fd *ast.FuncDecl, dir string, l *layout) {
-	body := norm(src(fd.Body))
-	wantEnc := "{ entriesBuf := buffer{} payloadSize := 0 for _, d := range r.Entries { d.encode(&entriesBuf) if len(entriesBuf.data) > int(r.Count) { break } payloadSize = len(entriesBuf.data) } r.Count = uint32(payloadSize) r.payload = entriesBuf.data[:payloadSize] b.Write32(r.Count) }"
-	wantDec := "{ r.Count = b.Read32() entriesBuf := buffer{data: r.payload} r.Entries = r.Entries[:0] for { var d Dirent d.decode(&entriesBuf) if entriesBuf.isOverrun() { break } r.Entries = append(r.Entries, d) } }"
+	// (canonical form: the names of receiver, parameter and locals are free)
+	body := canonNode(fd, fd.Body)
+	wantEnc := canonText("func (r *rreaddir) encode(b *buffer) { entriesBuf := buffer{}; payloadSize := 0; for _, d := range r.Entries { d.encode(&entriesBuf); if len(entriesBuf.data) > int(r.Count) { break }; payloadSize = len(entriesBuf.data) }; r.Count = uint32(payloadSize); r.payload = entriesBuf.data[:payloadSize]; b.Write32(r.Count) }")
+	wantDec := canonText("func (r *rreaddir) decode(b *buffer) { r.Count = b.Read32(); entriesBuf := buffer{data: r.payload}; r.Entries = r.Entries[:0]; for { var d Dirent; d.decode(&entriesBuf); if entriesBuf.isOverrun() { break }; r.Entries = append(r.Entries, d) } }")
 	want := wantEnc
 	prim := p.resolvePrim("Write32", true, 0)
 	if dir == "decode" {
@@ -957,14 +1095,11 @@ func genLayouts(p *pkgInfo, out string) {
 	// recv(): a payload buffer is reused only if it has exactly the needed length, and is then
 	// overwritten in full by vecs.ReadFrom (it is one of the vectors)
 	recvReuse := false
-	// (the body lives in recvLimit since the D18 fix; recv is a wrapper)
+	// (the body lives in recvLimit since the D18 fix; recv is a wrapper)  Read structurally: names are free.
 	for _, name := range []string{"recvLimit", "recv"} {
-		fd := p.funcs[name]
-		if fd == nil || recvReuse {
-			continue
+		if fd := p.funcs[name]; fd != nil && !recvReuse {
+			recvReuse = payloadExactOrFresh(fd)
 		}
-		b := norm(src(fd.Body))
-		recvReuse = strings.Contains(b, "p := payloader.Payload() if p == nil || len(p) != int(remaining-fixedSize) { p = make([]byte, remaining-fixedSize) payloader.SetPayload(p) } if len(p) > 0 { vecs = append(vecs, p) }")
 	}
 	fmt.Fprintf(&sb, "def recvPayloadExactOrFresh : Bool := %v\n", recvReuse)
 	// the server's read buffers are zeroed over the bytes handed out before going back to the pool
@@ -978,17 +1113,27 @@ func genLayouts(p *pkgInfo, out string) {
 	// inside the appendBuffer closure)
 	sendAfter := false
 	if fd := p.funcs["send"]; fd != nil {
-		b := norm(src(fd.Body))
-		w, put := strings.Index(b, "vecs.WriteTo(w)"), strings.Index(b, "dataPool.Put(")
-		sendAfter = w >= 0 && put > w && strings.Count(b, "dataPool.Put(") == 1
+		sendAfter = putAfterWrite(fd)
 	}
 	recvPut := false
 	for _, name := range []string{"recvLimit", "recv"} {
 		if fd := p.funcs[name]; fd != nil && !recvPut {
-			b := norm(src(fd.Body))
-			i := strings.Index(b, "appendBuffer := func(size int) *[]byte {")
-			j := strings.Index(b, "return datap }")
-			recvPut = i >= 0 && j > i && !strings.Contains(b[i:j], "dataPool.Put") && strings.Contains(b, "defer dataPool.Put(datap)")
+			recvPut = putsOnlyDeferredAtTop(fd)
+		}
+	}
+	// ... and nothing else in the package gives a data buffer back
+	for _, f := range p.files {
+		for _, d := range f.Decls {
+			fd, ok := d.(*ast.FuncDecl)
+			if !ok || fd.Body == nil || fd.Name.Name == "send" || fd.Name.Name == "recvLimit" || fd.Name.Name == "recv" {
+				continue
+			}
+			ast.Inspect(fd.Body, func(n ast.Node) bool {
+				if c, ok := n.(*ast.CallExpr); ok && norm(src(c.Fun)) == "dataPool.Put" {
+					sendAfter, recvPut = false, false
+				}
+				return true
+			})
 		}
 	}
 	// tread.handle never puts a read buffer back itself: the reply still references it, and
@@ -1092,6 +1237,145 @@ func sendRecvFacts(p *pkgInfo) (leaves, putDeferred, capOne bool) {
 			capOne = strings.Contains(b, "make(chan error, 1)") && strings.Count(b, "make(chan") == 1
 			return false
 		})
+	}
+	return
+}
+
+// payloadExactOrFresh: somewhere in fd, `P := X.Payload()` is followed by
+// `if P == nil || len(P) != int(E) { P = make([]byte, E); X.SetPayload(P) }`: the payload buffer a
+// frame is read into is the message's own only when it has exactly the payload's length, else fresh.
+func payloadExactOrFresh(fd *ast.FuncDecl) bool {
+	found := false
+	ast.Inspect(fd.Body, func(n ast.Node) bool {
+		blk, ok := n.(*ast.BlockStmt)
+		if !ok {
+			return true
+		}
+		for i, st := range blk.List {
+			as, ok := st.(*ast.AssignStmt)
+			if !ok || len(as.Lhs) != 1 || len(as.Rhs) != 1 || i+1 >= len(blk.List) {
+				continue
+			}
+			call, ok := as.Rhs[0].(*ast.CallExpr)
+			if !ok {
+				continue
+			}
+			sel, ok := call.Fun.(*ast.SelectorExpr)
+			if !ok || sel.Sel.Name != "Payload" || len(call.Args) != 0 {
+				continue
+			}
+			P, X := norm(src(as.Lhs[0])), norm(src(sel.X))
+			ifs, ok := blk.List[i+1].(*ast.IfStmt)
+			if !ok || ifs.Init != nil || ifs.Else != nil {
+				continue
+			}
+			cond := norm(src(ifs.Cond))
+			pre := P + " == nil || len(" + P + ") != int("
+			if !strings.HasPrefix(cond, pre) || !strings.HasSuffix(cond, ")") {
+				continue
+			}
+			E := cond[len(pre) : len(cond)-1]
+			if norm(src(ifs.Body)) == "{ "+P+" = make([]byte, "+E+") "+X+".SetPayload("+P+") }" {
+				found = true
+			}
+		}
+		return true
+	})
+	return found
+}
+
+// putAfterWrite: fd gives exactly one buffer back to dataPool, by a plain statement of its body that
+// comes after the statement in which the frame is written (`.WriteTo(`), or by a defer.
+func putAfterWrite(fd *ast.FuncDecl) bool {
+	puts, ok := 0, false
+	ast.Inspect(fd.Body, func(n ast.Node) bool {
+		if c, isCall := n.(*ast.CallExpr); isCall && norm(src(c.Fun)) == "dataPool.Put" {
+			puts++
+		}
+		return true
+	})
+	written := false
+	for _, st := range fd.Body.List {
+		if d, isDefer := st.(*ast.DeferStmt); isDefer && norm(src(d.Call.Fun)) == "dataPool.Put" {
+			ok = true
+		}
+		if es, isExpr := st.(*ast.ExprStmt); isExpr && written {
+			if c, isCall := es.X.(*ast.CallExpr); isCall && norm(src(c.Fun)) == "dataPool.Put" {
+				ok = true
+			}
+		}
+		if strings.Contains(norm(src(st)), ".WriteTo(") {
+			written = true
+		}
+	}
+	return puts == 1 && ok
+}
+
+// putsOnlyDeferredAtTop: every dataPool.Put in fd is the call of a defer that is not inside a
+// function literal (it runs when fd returns, after the message has been decoded), and there is one.
+func putsOnlyDeferredAtTop(fd *ast.FuncDecl) bool {
+	total, good := 0, 0
+	var walk func(n ast.Node, inLit bool)
+	walk = func(n ast.Node, inLit bool) {
+		ast.Inspect(n, func(m ast.Node) bool {
+			switch x := m.(type) {
+			case *ast.FuncLit:
+				if m != n {
+					walk(x.Body, true)
+					return false
+				}
+			case *ast.DeferStmt:
+				if norm(src(x.Call.Fun)) == "dataPool.Put" {
+					total++
+					if !inLit {
+						good++
+					}
+					return false
+				}
+			case *ast.CallExpr:
+				if norm(src(x.Fun)) == "dataPool.Put" {
+					total++
+				}
+			}
+			return true
+		})
+	}
+	walk(fd.Body, false)
+	return total > 0 && total == good
+}
+
+// elemLoop recognises a loop over all elements of a slice expression and returns the text of the
+// element expression inside the body, the body and the slice expression.
+func elemLoop(st ast.Stmt) (elem string, body *ast.BlockStmt, xs ast.Expr, ok bool) {
+	switch l := st.(type) {
+	case *ast.RangeStmt:
+		if l.Tok != token.DEFINE {
+			return
+		}
+		if l.Value != nil && l.Key != nil && src(l.Key) == "_" {
+			return src(l.Value), l.Body, l.X, true
+		}
+		if l.Value == nil && l.Key != nil && src(l.Key) != "_" {
+			return norm(src(l.X)) + "[" + src(l.Key) + "]", l.Body, l.X, true
+		}
+	case *ast.ForStmt:
+		// for i := 0; i < len(xs); i++
+		as, ok1 := l.Init.(*ast.AssignStmt)
+		inc, ok2 := l.Post.(*ast.IncDecStmt)
+		cond, ok3 := l.Cond.(*ast.BinaryExpr)
+		if !ok1 || !ok2 || !ok3 || as.Tok != token.DEFINE || len(as.Lhs) != 1 || len(as.Rhs) != 1 || src(as.Rhs[0]) != "0" ||
+			inc.Tok != token.INC || cond.Op != token.LSS {
+			return
+		}
+		i := src(as.Lhs[0])
+		if src(inc.X) != i || src(cond.X) != i {
+			return
+		}
+		call, ok4 := cond.Y.(*ast.CallExpr)
+		if !ok4 || src(call.Fun) != "len" || len(call.Args) != 1 {
+			return
+		}
+		return norm(src(call.Args[0])) + "[" + i + "]", l.Body, call.Args[0], true
 	}
 	return
 }
